@@ -793,4 +793,9 @@ def run_scenario(binary, sc, rng=None, args=(), strict_errors=False):
         ops, _ = run_model(mlines)
         mtr = ModelTrace(sc, ops, opmap)
     dis = compare(sc, itr, mtr, strict_errors) + compare_images(sc, itr, mtr)
+    if sc.name.startswith("outside-model:"):
+        # inputs outside the daemon model's domain (named in DESIGN.md: e.g. timeouts whose nanoseconds do not fit into 64
+        # bits, where C's conversion is undefined and the model's saturates): judged by the property monitors on the
+        # implementation only
+        dis = []
     return {"res": res, "log": log, "itr": itr, "mtr": mtr, "dis": dis, "script": lines, "model_script": mlines, "smap": smap}
